@@ -231,18 +231,21 @@ def check_groups(case):
         k = keys[0]
         m = n
         if case.get('mixed_cells') and m >= 1:
-            # one key row over columns of unlike non-object dtypes (scalar key form; the list form of this corner is not generated)
+            # one key row over columns of unlike non-object dtypes, addressed by its label or by a list of that one label
             cells = case['mixed_cells']
+            mkey = ['key'] if case.get('axis1_list') else 'key'
             pad = {'int64': 7, '<U1': 'z', 'float64': 9.5}
             f = sf.Frame.from_items([('c%d' % j, gen.freeze(np.array([v, pad[dt]], dtype=dt))) for j, (dt, v) in enumerate(cells)], index=('key', 'pad'))
             if case.get('go'):
                 f = f.to_frame_go()
                 classes.append('go-source')
-            r = lib(lambda: list(f.iter_group_items('key', axis=1)))
+            r = lib(lambda: list(f.iter_group_items(mkey, axis=1)))
             if isinstance(r, Raised):
-                raise Failure('raised:%s' % r.cls, "iter_group_items('key', axis=1) over columns of dtypes %s raised %r" % (sorted({dt for dt, _ in cells}), r.exc), r.where)
+                raise Failure('raised:%s' % r.cls, "iter_group_items(%r, axis=1) over columns of dtypes %s raised %r" % (mkey, sorted({dt for dt, _ in cells}), r.exc), r.where)
             groups = []
             for gk, g in r:
+                if isinstance(gk, tuple) and len(gk) == 1 and isinstance(mkey, list):
+                    gk = gk[0]
                 if not isinstance(g, sf.Frame):
                     raise Failure('kind', 'axis-1 group is %s' % short(g))
                 members = [int(str(c)[1:]) for c in obs.labels_of(g.columns)]
@@ -259,7 +262,7 @@ def check_groups(case):
                         raise Failure('dtype', 'axis-1 group %r column c%d has dtype %s expected %s' % (gk, p, gcols[q].dtype, cells[p][0]))
                 groups.append((gk, members))
             _partition_check(groups, m, lambda p: cells[p][1], None, "Frame.iter_group_items('key', axis=1) over mixed column dtypes")
-            return {'nt': m >= 2 and len({dt for dt, _ in cells}) >= 2, 'cls': ['g:frame_axis1', 'axis1-mixed-dtypes', 'axis1-mixed-kinds:%d' % len({dt for dt, _ in cells})]}
+            return {'nt': m >= 2 and len({dt for dt, _ in cells}) >= 2, 'cls': ['g:frame_axis1', 'axis1-mixed-dtypes', 'axis1-mixed-key:' + type(mkey).__name__, 'axis1-mixed-kinds:%d' % len({dt for dt, _ in cells})]}
         if len(keys) > 1 or k.dtype == object:
             # several key rows (or an object key row): the rows consolidate to an object frame; columns are identified by label
             nk = len(keys)
@@ -550,6 +553,11 @@ def check_windows(case):
 def tag(case, f):
     if case.get('what') == 'frame_axis1' and f.kind == 'raised:RuntimeError' and len(case['keys'][0]) == 0:
         return 'group-axis1-on-zero-columns-raises'
+    cells = case.get('mixed_cells')
+    if (case.get('what') == 'frame_axis1' and cells and case.get('axis1_list') and f.kind == 'raised:IndexError'
+            and any(dt == '<U1' for dt, _ in cells) and any(dt != '<U1' for dt, _ in cells)):
+        # only the list key form, only string columns beside numeric ones, only this error class
+        return 'group-axis1-list-key-over-str-and-numeric-columns-raises'
     kinds = case.get('kinds', [])
     # object keys of mixed types: the fallback groups by str(), so values whose str() collide are merged
     if 'object_mixed' in kinds and (f.kind in ('wrong-member', 'duplicate-key', 'partition', 'apply-labels', 'apply-value', 'value') or f.kind == 'raised:ErrorInitIndexNonUnique'):
